@@ -102,6 +102,9 @@ func runC19(p *eng.Prog, r *eng.Report, tier string) {
 	c13Discipline(c, "C19.2", c19Pkgs)
 	c19Delegation(c)
 	decoderSkipTypestate(c, "C19.9", inC19, 8)
+	// ---- C19.12 encoders emit field values verbatim
+	nle := lossyEmission(c, "C19.12", inC19)
+	c.r.Floor("C19.12", "emitted texts in the payload encoders", nle, 40)
 	// C19.11 tokens of an xml.Decoder are not replayed to the wire as they
 	// come: the decoder reports an element's namespace in its name AND as an
 	// xmlns attribute, the encoder writes one for the name again, and the
@@ -119,6 +122,9 @@ func runC19(p *eng.Prog, r *eng.Report, tier string) {
 				continue
 			}
 			cid := f.CalleeID(pc)
+			if innerFn, ok := ast.Unparen(pc.Fun).(*ast.CallExpr); ok && f.CalleeID(innerFn) == "mellium.im/xmlstream.RemoveAttr" {
+				cid = "mellium.im/xmlstream.RemoveAttr(...)"
+			}
 			if !strings.HasPrefix(cid, "mellium.im/xmlstream.") {
 				continue
 			}
@@ -128,10 +134,50 @@ func runC19(p *eng.Prog, r *eng.Report, tier string) {
 			if inner, ok := ast.Unparen(pc.Fun).(*ast.CallExpr); ok && f.CalleeID(inner) == "mellium.im/xmlstream.RemoveAttr" {
 				filtered = true
 			}
+			if filtered {
+				// the filter drops EVERY unprefixed xmlns attribute of a namespaced
+				// element: its predicate has no condition beyond these three
+				inner := ast.Unparen(pc.Fun).(*ast.CallExpr)
+				okPred, whyPred := false, "the predicate is not a function literal with a single return"
+				if lit, ok := ast.Unparen(inner.Args[0]).(*ast.FuncLit); ok && len(lit.Body.List) == 1 {
+					if rs, ok := lit.Body.List[0].(*ast.ReturnStmt); ok && len(rs.Results) == 1 {
+						lf := c.p.FnOfLit(lit)
+						var conj []ast.Expr
+						var split func(e ast.Expr)
+						split = func(e ast.Expr) {
+							e = ast.Unparen(e)
+							if be, ok := e.(*ast.BinaryExpr); ok && be.Op == token.LAND {
+								split(be.X)
+								split(be.Y)
+								return
+							}
+							conj = append(conj, e)
+						}
+						split(rs.Results[0])
+						allowed := map[string]bool{`(p0.Name.Space != "")`: true, `(p1.Name.Space == "")`: true, `(p1.Name.Local == "xmlns")`: true}
+						okPred, whyPred = true, ""
+						hasLocal := false
+						for _, e := range conj {
+							t := lf.Norm(e, nil)
+							if t == `(p1.Name.Local == "xmlns")` {
+								hasLocal = true
+							}
+							if !allowed[t] {
+								okPred, whyPred = false, "extra condition "+t+": an xmlns attribute that does not satisfy it is written next to the one the encoder adds"
+							}
+						}
+						if !hasLocal {
+							okPred, whyPred = false, "the predicate does not select the xmlns attribute"
+						}
+					}
+				}
+				c.r.Check("C19.11", f, "attribute filter drops every default-namespace declaration", "G(exact): the predicate is a conjunction of {element is namespaced, attribute is unprefixed, attribute is xmlns} and nothing else", cl.Pos(), okPred, whyPred)
+			}
 			c.r.Check("C19.11", f, "decoder replayed as a payload", "K: a decoder whose tokens are written to the wire is wrapped in an attribute filter (xmlstream.RemoveAttr) that drops the xmlns the encoder writes anyway", cl.Pos(), filtered, "tokens of xml.NewDecoder go to "+cid+" unfiltered: namespaced elements are written with a duplicate xmlns attribute")
 		}
 	}
 	c.r.Note("C19.11: %d decoders used as payload readers examined", nrep)
+	c.r.Floor("C19.11", "decoders replayed as payloads", nrep, 1)
 	nloop := decoderLoopConsumes(c, "C19.10", inC19)
 	c.r.Note("C19.10: %d start-element edges in token loops examined", nloop)
 	ntag := tagNamespaceAgreement(c, "C19.3", inC19)
